@@ -165,7 +165,9 @@ def build_proofs(bdir, prop, files, log, timeout=3000, jobs=NPROC):
         log("  make proofs/%s: rc=%d %.1fs" % (prop, rc, dt))
         bad = None
         if rc != 0:
-            m = re.search(r'File "\./proofs/%s/([^"]+)", line (\d+)' % prop, out)
+            # the File line that is followed by an Error (not a Warning)
+            m = re.search(r'File "\./proofs/%s/([^"]+)", line (\d+), characters [^\n]*\n(?:[^\n]*\n)??Error' % prop, out) or \
+                re.search(r'File "\./proofs/%s/([^"]+)", line (\d+)[^\n]*\nError' % prop, out)
             if m: bad = "%s line %s" % (m.group(1), m.group(2))
             else:
                 m = re.search(r"proofs/%s/(\S+?)\.vo" % prop, out)
